@@ -83,6 +83,7 @@ type Exec struct {
 	forceMemo map[*LazyV]Val
 	sliceMemo map[*LazyV]*SliceV
 	UsedContracts map[string]bool
+	callResults map[string]tval
 	specArith bool
 	TopKey    string
 	Externals map[string]bool
@@ -1079,6 +1080,18 @@ func (ex *Exec) sliceOp(fr *frame, ins *ssa.Slice) Val {
 	var sl *SliceV
 	if p, ok := x.(*PtrV); ok {
 		sl = ex.forceSlice(ex.load(p))
+		// slicing a byte array (make([]byte, n), []byte{...}): a fresh byte-string value
+		if isByteSlice(ins.Type()) && ins.Low == nil {
+			whole := ins.High == nil
+			if !whole {
+				if c, ok := ex.term(ex.get(fr, ins.High)).ConstInt(); ok && int(c.Int64()) == sl.Len {
+					whole = true
+				}
+			}
+			if whole {
+				return ex.asBytes(sl)
+			}
+		}
 	} else {
 		sl = ex.forceSlice(x)
 	}
@@ -1213,7 +1226,7 @@ func (ex *Exec) binop(op token.Token, x, y Val, xt types.Type) Val {
 	if a.Sort == smt.Str {
 		switch op {
 		case token.ADD:
-			return smt.App("strcat", smt.Str, a, b)
+			return strConcat(a, b)
 		case token.LSS:
 			return smt.App("strlt", smt.Bool, a, b)
 		case token.GTR:
